@@ -21,6 +21,9 @@ let fprint_handler prop = reg prop "Fprint" (fun ver args obs ->
     end in
   let ops = fprint_ops v3 p.o maxd shown in
   let size' = if size <= 0 then 4096 else size in
+  (* mode 4 (a silent short write even of 0 bytes): only the statement is evaluated, on the implementation's observation *)
+  let stmt_only = (mode = 4) in
+  let mode = (if mode = 4 then 2 else mode) in
   let w0 = { fw_left = k; fw_mode = z_of_int mode; fw_faulted = false } in
   match run_fprint (nat_of_int 100000) (nat_of_int size') w0 ops with
   | None -> { model = ["MODEL-OUT-OF-FUEL"]; tags = []; spec = None; known = None }
@@ -63,6 +66,8 @@ let fprint_handler prop = reg prop "Fprint" (fun ver args obs ->
     let known =
       if obs = ["TIMEOUT"] && hangs_pinned ops r then Some "gap-loop-hang" else None in
     let spec = (match stmt with Some _ -> stmt | None -> spec) in
+    let model = (if stmt_only && obs <> ["TIMEOUT"] then obs else model) in
+    let spec = (if stmt_only then stmt else spec) in
     let v = { model; tags; spec; known } in
     (* a hang that the pinned gap loop explains is reported under its own key *)
     if obs = ["TIMEOUT"] && known <> None then { v with model = obs } else v)
